@@ -45,7 +45,7 @@ ASSUMPTIONS = ["single process (MPI singleton, MPI_COMM_SELF), local tmpfs/POSIX
                "'time related to the size of the file' is replaced by deterministic counters (header fetches, traced heap); pure "
                "CPU blow-ups without I/O or allocation are not detected (DESIGN.md section 5)",
                "UBSan reports each source location once per process; counts of UB hits are lower bounds, distinct sites are exact",
-               "part B (valid programs under the sanitizer build) not included yet"]
+               "part B replays generated valid programs of C01, C02, C05, C12 and C13 under the ASan+UBSan build (ROMIO pool) and judges sanitizer reports only; their semantic oracles belong to those properties"]
 
 # ---------------------------------------------------------------------------------------------
 # UBSan sites of recorded findings, given as statement text (not line numbers: unrelated edits shift lines).  A UBSan problem
@@ -447,7 +447,7 @@ def minimise(build_fuzz, build_asan, data, exclusions, want_sigs, root):
 
 
 # ------------------------------------------------------------------------------ part B hook
-PART_B_MODULES = ["c01", "c02", "c05", "c13", "c12"]
+PART_B_MODULES = ["c01", "c02", "c05", "c13", "c12", "c10"]
 UB_LINE = re.compile(r"^(?P<file>\S+?):(?P<line>\d+):(?P<col>\d+): runtime error: (?P<msg>.*)$")
 
 
@@ -480,6 +480,8 @@ def _part_b_script(modname, case):
     mod = importlib.import_module("checks." + modname)
     if modname == "c12":
         p = mod.build(case, bb=True)[0]
+    elif modname == "c10":
+        p = mod.build(case, case["B"])[0]      # non-default hints: aggregation, ibuf packing, in-place swap, safe mode
     else:
         p = mod.build(case)[0]
     return p
@@ -520,6 +522,8 @@ def _part_b_run(ctx, modname, case):
         labels.add("b_varn")
     if "nc_burst_buf" in txt:
         labels.add("b_burst_buffer")
+    if "nc_num_aggrs_per_node" in txt:
+        labels.add("b_intra_node_aggregation")
     return _scan_sanitizer(pool.stderr_delta()), labels
 
 
